@@ -27,7 +27,7 @@ import dataclasses
 import functools
 import itertools
 import logging
-from collections.abc import Collection, Container, Iterable
+from collections.abc import Callable, Collection, Container, Iterable
 from typing import Any, NamedTuple, Protocol
 
 from kopf._cogs.aiokits import aiotasks, aiotoggles
@@ -76,6 +76,9 @@ class Ensemble:
     peering_tasks: dict[EnsembleKey, aiotasks.Task] = dataclasses.field(default_factory=dict)
     pinging_tasks: dict[EnsembleKey, aiotasks.Task] = dataclasses.field(default_factory=dict)
 
+    # Notified when any of the tasks above is done: to escalate the failures to the orchestrator.
+    task_done_callback: Callable[[aiotasks.Task], None] | None = None
+
     def get_keys(self) -> Collection[EnsembleKey]:
         return (frozenset(self.watcher_tasks) |
                 frozenset(self.peering_tasks) |
@@ -111,10 +114,22 @@ async def orchestrator(
         operator_paused: aiotoggles.ToggleSet,
 ) -> None:
     peering_missing = await operator_paused.make_toggle(name='peering CRD is missing')
+
+    # In case of a failed streaming task, stop the orchestrator, and escalate to the operator to stop it.
+    orchestrator_task = asyncio.current_task()
+    task_error: BaseException | None = None
+    def task_done_callback(task: aiotasks.Task) -> None:
+        nonlocal task_error
+        if task_error is None and not task.cancelled() and task.exception() is not None:
+            task_error = task.exception()
+            if orchestrator_task is not None:  # never happens, but is needed for type-checking.
+                orchestrator_task.cancel()
+
     ensemble = Ensemble(
         peering_missing=peering_missing,
         operator_paused=operator_paused,
         operator_indexed=aiotoggles.ToggleSet(all),
+        task_done_callback=task_done_callback,
     )
     try:
         async with insights.revised:
@@ -127,10 +142,12 @@ async def orchestrator(
                     identity=identity,
                     ensemble=ensemble,
                 )
-    except asyncio.CancelledError:
+    finally:
         tasks = ensemble.get_tasks(ensemble.get_keys())
         await aiotasks.stop(tasks, title="streaming", logger=logger, interval=10)
-        raise
+        if task_error is not None:
+            raise RuntimeError("A streaming task has failed with an unrecoverable error. "
+                               "The operator will stop to prevent damage.") from task_error
 
 
 # Directly corresponds to one iteration of an orchestrator, but it is extracted for testability:
@@ -209,6 +226,8 @@ async def spawn_missing_peerings(
                     resource=resource,
                     settings=settings,
                     identity=identity))
+            if ensemble.task_done_callback is not None:
+                ensemble.pinging_tasks[dkey].add_done_callback(ensemble.task_done_callback)
             ensemble.peering_tasks[dkey] = aiotasks.create_guarded_task(
                 name=f"peering observer for {what}", logger=logger, cancellable=True,
                 coro=queueing.watcher(
@@ -221,6 +240,8 @@ async def spawn_missing_peerings(
                                                 resource=resource,
                                                 settings=settings,
                                                 identity=identity)))
+            if ensemble.task_done_callback is not None:
+                ensemble.peering_tasks[dkey].add_done_callback(ensemble.task_done_callback)
 
     # Ensure that all guarded tasks got control for a moment to enter the guard.
     await asyncio.sleep(0)
@@ -259,6 +280,8 @@ async def spawn_missing_watchers(
                     resource=resource,
                     namespace=namespace,
                     processor=functools.partial(processor, resource=resource)))
+            if ensemble.task_done_callback is not None:
+                ensemble.watcher_tasks[dkey].add_done_callback(ensemble.task_done_callback)
 
     # Unblock globally, let the specialised per-resource-kind blockers hold the readiness.
     await ensemble.operator_indexed.drop_toggle(operator_blocked)
